@@ -60,6 +60,28 @@ cfg_client_or_server! {
 	pub mod middleware;
 }
 
+#[cfg(feature = "verif-hooks")]
+#[doc(hidden)]
+pub mod verif;
+
+/// Named yield point for external runtime monitors; expands to nothing unless `verif-hooks` is enabled.
+#[cfg(feature = "verif-hooks")]
+#[doc(hidden)]
+#[macro_export]
+macro_rules! verif_point {
+	($name:expr) => {
+		$crate::verif::point($name).await
+	};
+}
+
+/// Named yield point for external runtime monitors; expands to nothing unless `verif-hooks` is enabled.
+#[cfg(not(feature = "verif-hooks"))]
+#[doc(hidden)]
+#[macro_export]
+macro_rules! verif_point {
+	($name:expr) => {};
+}
+
 pub use async_trait::async_trait;
 pub use error::{RegisterMethodError, SubscriptionError};
 
